@@ -5,6 +5,7 @@ from .. import obscure, codec
 
 NEED_DEPS = True
 REQUIRES = ['compress']
+USES_QUERIES = True
 EXPLANATION = (
     "FLOW/GUARD rules. C13.1: at the compress sink the payload is the serialisation of self and the declared digest is "
     "Some(digest(self)) (C02.2). C13.2: in uncompress the Ok exit is dominated by the passing edge of digest(decoded) == declared "
@@ -138,12 +139,13 @@ def check_compress_table(ctx, inst_idem, inst_refuse):
         return
     tb = TermBuilder(F, b)
     variants = adt_variants(F, CASE)
-    atoms = find_terms(b, tb, lambda x: x[0] == 'discr' and m_call(x[1], name='case', self_suffix='Envelope') is not None and strip_sites(m_call(x[1], name='case', self_suffix='Envelope')[0]) == P1)
-    if len(atoms) != 1:
-        ctx.fail(inst_idem, ctx.site(b), 'compress() does not decide on the case of self alone (it must be idempotent for a Compressed element, refuse Encrypted/Elided ones and compress every other case as a whole)', key=inst_idem + '|atoms')
+    from .. import accessors
+    if not accessors.case_env(F, b, tb, 'Compressed', variants)[1]:
+        ctx.fail(inst_idem, ctx.site(b), 'compress() does not decide on the case of self (it must be idempotent for a Compressed element, refuse Encrypted/Elided ones and compress every other case as a whole)', key=inst_idem + '|atoms')
         return
     for idx, vname in enumerate(variants):
-        reach = reach_under(b, tb, {atoms[0]: idx})
+        # the case of self fixed: through `match self.case()` or through the case predicates is_compressed(self) / is_elided(self) / ..
+        reach = reach_under(b, tb, accessors.case_env(F, b, tb, vname, variants)[0])
         outs = set()
         for bi, si, t in ret_defs(tb):
             if bi not in reach:
